@@ -1,0 +1,123 @@
+//! Verification hooks. Compiled only with the cargo feature `verif`; nothing in this module is
+//! reachable from a default build.
+//!
+//! * [`point`] is a named yield point. It is a no-op unless the calling thread installed a
+//!   [`Controller`] with [`install`]; a schedule controller parks the thread inside
+//!   `Controller::point` until it is released, which gives an external harness step-by-step
+//!   control over thread interleavings at the granularity of lock acquisitions and filesystem
+//!   calls on shared files.
+//! * [`lock_mask`] / [`intents_snapshot`] expose which of the three index locks are held.
+//! * The `codec_*` functions re-export the crate-private codecs and the segment reader.
+
+use std::cell::RefCell;
+use std::collections::BTreeMap;
+use std::path::Path;
+use std::sync::Arc;
+
+use crate::types::{BlobHash, KeyBytes, WalOpRaw};
+use crate::{CasInner, IndexStateItem};
+
+pub trait Controller: Send + Sync {
+    /// Called by the instrumented thread *before* it performs the action called `name`.
+    fn point(&self, name: &'static str);
+}
+
+thread_local! {
+    static CONTROLLER: RefCell<Option<Arc<dyn Controller>>> = const { RefCell::new(None) };
+}
+
+/// Install (or remove) the controller of the calling thread.
+pub fn install(controller: Option<Arc<dyn Controller>>) {
+    CONTROLLER.with(|c| *c.borrow_mut() = controller);
+}
+
+#[inline]
+pub fn point(name: &'static str) {
+    let ctrl = CONTROLLER.with(|c| c.borrow().clone());
+    if let Some(ctrl) = ctrl {
+        ctrl.point(name);
+    }
+}
+
+#[derive(Debug, Clone, Copy, PartialEq, Eq)]
+pub struct LockMask {
+    pub intents: bool,
+    /// 0 = free, 1 = shared, 2 = exclusive
+    pub state: u8,
+    pub wal: bool,
+}
+
+pub fn lock_mask<K>(inner: &CasInner<K>) -> LockMask {
+    let st = &inner.index.state;
+    let state = if st.is_locked_exclusive() {
+        2
+    } else if st.is_locked() {
+        1
+    } else {
+        0
+    };
+    LockMask {
+        intents: inner.index.pending_intents.is_locked(),
+        state,
+        wal: inner.index.wal.is_locked(),
+    }
+}
+
+/// Copy of the pending-intent table, or `None` if the lock is currently held.
+pub fn intents_snapshot<K: Clone + Ord>(inner: &CasInner<K>) -> Option<BTreeMap<K, BlobHash>> {
+    let guard = inner.index.pending_intents.try_lock()?;
+    Some(guard.iter().map(|(k, h)| (k.clone(), *h)).collect())
+}
+
+/// Copy of the key map, or `None` if the state lock cannot be taken for reading right now.
+pub fn index_snapshot<K: Clone + Ord>(
+    inner: &CasInner<K>,
+) -> Option<(BTreeMap<K, IndexStateItem>, BTreeMap<BlobHash, u32>)> {
+    let guard = inner.index.state.try_read()?;
+    let refs = guard.hash_to_ref_count.iter().map(|(h, c)| (*h, *c)).collect();
+    Some((guard.key_to_hash.clone(), refs))
+}
+
+/// `next_op_version` of the WAL manager, or `None` if the WAL lock is held.
+pub fn next_op_version<K>(inner: &CasInner<K>) -> Option<u64> {
+    let guard = inner.index.wal.try_lock()?;
+    Some(guard.get_next_op_version().get())
+}
+
+pub fn codec_serialize_wal_op(op: &WalOpRaw) -> Result<Vec<u8>, String> {
+    crate::serialization::serialize_wal_op_raw(op).map_err(|e| e.to_string())
+}
+
+pub fn codec_deserialize_wal_op(bytes: &[u8]) -> Result<WalOpRaw, String> {
+    crate::serialization::deserialize_wal_op_raw(bytes).map_err(|e| e.to_string())
+}
+
+pub fn codec_serialize_index<K: KeyBytes>(
+    map: &BTreeMap<K, IndexStateItem>,
+    last_persisted_version: Option<std::num::NonZeroU64>,
+) -> Vec<u8> {
+    crate::serialization::serialize_index_state(map, last_persisted_version)
+}
+
+#[allow(clippy::type_complexity)]
+pub fn codec_deserialize_index(
+    bytes: &[u8],
+) -> Result<(BTreeMap<Vec<u8>, IndexStateItem>, Option<std::num::NonZeroU64>), String> {
+    crate::serialization::deserialize_index_state(bytes).map_err(|e| e.to_string())
+}
+
+/// Read one segment file with the crate's own reader: `(version, payload)` per entry, and the
+/// error (as text) that ended the iteration, if any.
+#[allow(clippy::type_complexity)]
+pub fn codec_read_segment(path: &Path) -> Result<(Vec<(u64, Vec<u8>)>, Option<String>), String> {
+    let file = std::fs::File::open(path).map_err(|e| e.to_string())?;
+    let reader = crate::wal::verif_segment_reader(0, path.to_path_buf(), file);
+    let mut entries = Vec::new();
+    for entry in reader {
+        match entry {
+            Ok(e) => entries.push((e.version.get(), e.op_data)),
+            Err(e) => return Ok((entries, Some(e.to_string()))),
+        }
+    }
+    Ok((entries, None))
+}
